@@ -1,5 +1,6 @@
 import Eav.Model
 import Eav.Cost
+import Eav.Gen.Enums
 /-!
 Line-protocol driver for the model (`lean_exe eavdrv`): reads the op file written by the C harness
 (ops + recorded IDN conversions), prints one canonical result line per op, in the same format
@@ -204,6 +205,26 @@ def handle (be : Backend) (b : Build) (toks : List String) : String :=
   | ["sT", s] => "sT " ++ (match Spec.csvClass Gen.csvPuny (unhex s) with | some c => toString c | none => "-26")
   | ["Ft", f] => "Ft " ++ " ".intercalate ((cliLines (unhex f)).map hexOf)
   | ["Fs", t] => "Fs " ++ hexOf (sanitize (unhex t))
+  | "Fm" :: rest =>
+    -- the whole tool: `Fm <file|~>… | <address> <rc> <out> | …` (files as arguments, `~` = unreadable; then what the IDN
+    -- library answered while each address was validated)
+    (match splitGroups rest with
+     | files :: convs =>
+       let args : List (Option (List Nat)) := files.map fun f => if f == "~" then none else some (unhex f)
+       let table : List (List Nat × Conv) := convs.filterMap fun g =>
+         match g with
+         | [a, rc, out] => some (unhex a, { rc := rc.toInt?.getD 0, out := if out == "-" then none else some (unhex out) })
+         | _ => none
+       let convOf : List Nat → Conv := fun a => match table.find? (fun p => p.1 == a) with | some p => p.2 | none => noConv
+       let bytes : String → List Nat := fun s => s.toUTF8.toList.map (·.toNat)
+       let texts : Texts := { errors := fun i => bytes ((Gen.errorsRuntime[i]?).getD "?"),
+                              strerr := fun rc => bytes ("<<idn:" ++ toString rc ++ ">>") }
+       (match cliMain be b convOf texts args with
+        | .error f => "Fm " ++ showFault f
+        | .ok r =>
+          "Fm " ++ toString r.exit ++ " " ++ bit (r.final.liveResults == 0 && r.final.resconfLive == 0)
+            ++ String.join (r.files.map fun o => " ; " ++ hexOf o.stdout ++ " " ++ toString o.passed ++ " " ++ toString o.failed))
+     | [] => "Fm BADOP")
   | t :: _ => t ++ " BADOP"
   | [] => ""
 
